@@ -54,9 +54,14 @@ def hash_eq(ctx, x, y):
             c = b_and(c, int_binop("Eq", p, q))
         return c
     if isinstance(x, HashV) or isinstance(y, HashV):
-        # a term compared with raw bytes from an input: nothing is known -> unconstrained
+        # a hash term compared with raw bytes: a Node is never equal to a *leaf given as raw bytes* in the
+        # harnesses (leaves are data, nodes are hashes of data); against other raw bytes nothing is known
+        t = x if isinstance(x, HashV) else y
+        if ctx is None or t.kind == "node":
+            return False
         return ctx.fresh_bool("hash_eq_bytes")
-    return None
+    # two raw 32-byte values
+    return M.eq_formula(None, x, y)
 
 
 def concat_and_hash(left, right):
